@@ -39,6 +39,9 @@ def run(ctx):
     ok, log = ctx.extract("saslplain", ["lean/KafkaVerif/Gen/SaslPlainFmt.lean"])
     if not ok:
         broken.append({"kind": "obligation", "name": "translator go/extract saslplain", "detail": log[-1500:]})
+    ok2, log2 = ctx.extract("muxfacts", ["lean/KafkaVerif/Gen/MuxFacts.lean"])
+    if not ok2:
+        broken.append({"kind": "obligation", "name": "translator go/extract muxfacts", "detail": log2[-1500:]})
     res = ctx.prove(MODULE)
     if not res["ok"]:
         broken.append({"kind": "obligation", "theorems": res["failed"], "detail": res["reasons"][:10]})
